@@ -124,3 +124,18 @@ var FileShapes = []Shape{
 		return Fault{Kind: "err", Name: "file/closed", Err: &net.OpError{Op: "file", Net: "tcp", Source: c.laddr, Addr: c.raddr, Err: net.ErrClosed}}
 	}},
 }
+
+// SockoptShapes are the ways a socket-option call of *net.TCPConn (SetKeepAlive, SetNoDelay, ...) can
+// fail on an accepted connection: the peer has reset it already, the descriptor is gone, the option
+// is refused.
+var SockoptShapes = []Shape{
+	{Name: "EINVAL", Make: func(c *Conn, op string) Fault {
+		return Fault{Kind: "err", Name: "sockopt/EINVAL", Err: &net.OpError{Op: "set", Net: "tcp", Source: c.laddr, Addr: c.raddr, Err: os.NewSyscallError("setsockopt", syscall.EINVAL)}}
+	}},
+	{Name: "ENOPROTOOPT", Make: func(c *Conn, op string) Fault {
+		return Fault{Kind: "err", Name: "sockopt/ENOPROTOOPT", Err: &net.OpError{Op: "set", Net: "tcp", Source: c.laddr, Addr: c.raddr, Err: os.NewSyscallError("setsockopt", syscall.ENOPROTOOPT)}}
+	}},
+	{Name: "closed", Make: func(c *Conn, op string) Fault {
+		return Fault{Kind: "err", Name: "sockopt/closed", Err: &net.OpError{Op: "set", Net: "tcp", Source: c.laddr, Addr: c.raddr, Err: net.ErrClosed}}
+	}},
+}
